@@ -206,6 +206,8 @@ def _tm_histories(sp, tmm, check_pus_crc, Service17Tm, c, stamp, src, want, wo, 
         fresh2.calc_crc()
         eq(devs, f"hist.{tag}.calc_crc", bytes(fresh2.crc16), want[-2:])
         eq(devs, f"hist.{tag}.pack", bytes(build_tm(tmm, c, stamp, src).pack()), want)
+    # positional construction in the documented order (service, subservice, timestamp, source_data, apid, seq_count, message_counter, space_time_ref, destination_id, packet_version)
+    eq(devs, "hist.positional.bytes", bytes(tmm.PusTm(c["service"], c["subservice"], stamp, src, c["apid"], c["seq"], c["msg_counter"], c["time_ref"], c["dest_id"], c["ver"]).pack()), want)
     # documented defaults (APID 0, counts 0, destination 0, time reference 0, version 0, no source data): independent objects
     d1 = tmm.PusTm(service=c["service"], subservice=c["subservice"], timestamp=stamp)
     d2 = tmm.PusTm(service=c["service"], subservice=c["subservice"], timestamp=stamp)
